@@ -46,4 +46,55 @@ let handle (toks : string list) : string =
        | "gen_sort" -> res_str (gen_sort_dispatch r)
        | "herm_sort" -> (match herm_sort_check r with Ok _ -> "ok" | Throw (e, _) -> "throw " ^ implode e)
        | _ -> "ERROR unknown dispatch")
+  | "m_ctor" :: cls :: n :: nev :: ncv :: [] ->
+      let zi s = z_of_int (int_of_string s) in
+      let show r = (match r with Ok _ -> "ok" | Throw (e, _) -> "throw " ^ implode e) in
+      (match cls with
+       | "herm" -> show (herm_ctor_lvalue (zi n) (zi nev) (zi ncv))
+       | "herm_rvalue" -> show (herm_ctor_rvalue (zi n) (zi nev) (zi ncv))
+       | "gen" -> show (gen_ctor (zi n) (zi nev) (zi ncv))
+       | _ -> "ERROR unknown ctor model")
+  | ["m_jd"; n; nev; ni; nm] ->
+      let zi s = z_of_int (int_of_string s) in
+      let r = if ni = "-1" && nm = "-1" then jd_ctor_default (zi n) (zi nev) else jd_ctor (zi n) (zi nev) (zi ni) (zi nm) in
+      (match r with
+       | Ok (((_, mx), ini), cs) -> Printf.sprintf "ok %d %d %d" (int_of_z mx) (int_of_z ini) (int_of_z cs)
+       | Throw (e, _) -> "throw " ^ implode e)
+  | ["m_svd"; r; c; k; ncv] ->
+      let zi s = z_of_int (int_of_string s) in
+      (match svd_ctor (zi r) (zi c) (zi k) (zi ncv) with Ok _ -> "ok" | Throw (e, _) -> "throw " ^ implode e)
+  | ["m_sigma"; mode; iszero] ->
+      let orc = (fun _ _ -> iszero = "1") in
+      let show r = (match r with Ok _ -> "ok" | Throw (e, _) -> "throw " ^ implode e) in
+      (match mode with
+       | "ShiftInvert" -> show (shift_mode_check_shiftinvert orc)
+       | "Buckling" -> show (shift_mode_check_buckling orc)
+       | "Cayley" -> show (shift_mode_check_cayley orc)
+       | _ -> "ERROR unknown mode")
+  | ["m_initzero"; iszero] ->
+      let orc = (fun _ _ -> iszero = "1") in
+      (match arnoldi_init_check orc Z0 Z0 with Ok _ -> "ok" | Throw (e, _) -> "throw " ^ implode e)
+  | ["m_wrapper"; w; r; c] ->
+      let zi s = z_of_int (int_of_string s) in
+      let show x = (match x with Ok _ -> "ok" | Throw (e, _) -> "throw " ^ implode e) in
+      (match w with
+       | "DenseGenMatProd" -> show wrapper_ctor_DenseGenMatProd
+       | "DenseSymMatProd" -> show wrapper_ctor_DenseSymMatProd
+       | "DenseHermMatProd" -> show wrapper_ctor_DenseHermMatProd
+       | "SparseGenMatProd" -> show wrapper_ctor_SparseGenMatProd
+       | "SparseSymMatProd" -> show wrapper_ctor_SparseSymMatProd
+       | "SparseHermMatProd" -> show wrapper_ctor_SparseHermMatProd
+       | "DenseSymShiftSolve" -> show (wrapper_ctor_DenseSymShiftSolve (zi r) (zi c))
+       | "SparseSymShiftSolve" -> show (wrapper_ctor_SparseSymShiftSolve (zi r) (zi c))
+       | "DenseGenRealShiftSolve" -> show (wrapper_ctor_DenseGenRealShiftSolve (zi r) (zi c))
+       | "SparseGenRealShiftSolve" -> show (wrapper_ctor_SparseGenRealShiftSolve (zi r) (zi c))
+       | "DenseGenComplexShiftSolve" -> show (wrapper_ctor_DenseGenComplexShiftSolve (zi r) (zi c))
+       | "SparseGenComplexShiftSolve" -> show (wrapper_ctor_SparseGenComplexShiftSolve (zi r) (zi c))
+       | "DenseCholesky" -> show (wrapper_ctor_DenseCholesky (zi r) (zi c))
+       | "SparseCholesky" -> show (wrapper_ctor_SparseCholesky (zi r) (zi c))
+       | "SparseRegularInverse" -> show (wrapper_ctor_SparseRegularInverse (zi r) (zi c))
+       | _ -> "ERROR unknown wrapper")
+  | ["m_wrapper2"; ar; ac; br; bc] ->
+      let zi s = z_of_int (int_of_string s) in
+      (match wrapper_ctor_SymShiftInvert (zi ar) (zi ac) (zi br) (zi bc) with Ok _ -> "ok" | Throw (e, _) -> "throw " ^ implode e)
   | _ -> "ERROR unknown-case " ^ String.concat " " toks
